@@ -213,7 +213,8 @@ func c13Snapshots(c *Ctx) {
 	if fd := c.NeedDecl("C13.R2", "(*object).Dict"); fd != nil {
 		n++
 		ob := c.Ob("C13.R2", "(*object).Dict", fd.Pos())
-		paths, why := c.runPaths(fd)
+		// a snapshot filled through a sibling visitor of the same receiver, called statically (ego.ForEach(func…)), is followed into it
+		paths, why := c.runPathsWith(fd, func(x *SX) { x.InlineStaticSelf = true })
 		v := c.view(fd)
 		msg := why
 		if msg == "" {
